@@ -326,7 +326,12 @@ pub fn guided_lt_msg(rng: &mut impl Rng, d: &Driver) -> MsgSpec {
             77..=82 => mk(2, 0, if good == "sha" { "mi" } else { "sha" }, json!({})),
             83..=88 => mk(2, 0, if good == "sha" { "sha_bad" } else { "mi_bad" }, json!({})),
             89..=93 => mk(2, 0, if good == "sha" { "sha_otherpw" } else { "mi_otherpw" }, json!({})),
-            94..=96 => mk(2, 0, "both", json!({})),
+            94..=95 => mk(2, 0, "both", json!({})),
+            // ill-formed challenges that nevertheless carry an integrity attribute (valid or not)
+            96 => mk(3, 438, if r(2) == 0 { good } else if good == "sha" { "sha_bad" } else { "mi_bad" },
+                     json!({"nonce":"absent","realm":"ok"})),
+            97 => mk(3, 401, if r(2) == 0 { good } else if good == "sha" { "sha_bad" } else { "mi_bad" },
+                     json!({"nonce":"fresh","realm":"absent","algs":"none","pa":false,"ua":false,"dup":false})),
             _ => mk(2, 0, "none", json!({})),
         }
     }
